@@ -1,7 +1,8 @@
 (* C20 - Per-covenant coin counts always equal the number of unspent coins.
    Pinned statements only; proofs in STF/Proofs/Counts.v.  [CountsOk (coins, counts)]: for every covenant hash
    h, counts has no entry when no coin is locked by h and otherwise the entry is the number of such coins. *)
-From MelVerif Require Import STF.Model STF.Proofs.Coins STF.Proofs.Counts STF.Proofs.HashFacts STF.Proofs.PermAccept.
+From MelVerif Require Import STF.Model STF.Proofs.Coins STF.Proofs.Counts STF.Proofs.HashFacts STF.Proofs.PermAccept
+  STF.Proofs.SealCoins STF.Proofs.SealCounts STF.Proofs.History STF.Proofs.Witness STF.Proofs.Witness5.
 Open Scope N_scope.
 
 (* inserting a coin keeps the invariant (a coin that overwrites one must carry the same covenant hash: pool
@@ -52,3 +53,104 @@ Theorem C20_spend : forall txs n n',
   CountsOk (s_coins n, s_counts n) -> spend_all true txs n = Ok n' -> CountsOk (s_coins n', s_counts n').
 Proof. exact spend_all_counts_ok. Qed.
 Print Assumptions C20_spend.
+
+(* ---- every reachable state.
+   [Good s] is the invariant: transactions are filed under their own hash; the counts are right once TIP-906 is
+   active and there are none before; and the coins at output ids 0 / 1 of a transaction of the current block carry
+   that output's covenant hash (so that the Melswap rewrite of a request output moves no count).  Spelled out: *)
+Theorem C20_invariant_def : forall s,
+  Good s <->
+  (forall h t, s_txs s !! h = Some t -> t_hash t = h) /\
+  (if tip_906 s then CountsOk (s_coins s, s_counts s) else s_counts s = ∅) /\
+  (forall t, In t (sorted_txs s) ->
+     (forall c, s_coins s !! coin_key (t_hash t) 0 = Some c -> cd_covhash (c_data c) = cd_covhash (out0 t)) /\
+     (forall c, s_coins s !! coin_key (t_hash t) 1 = Some c ->
+        cd_covhash (c_data c) = if N.of_nat (length (t_outputs t)) =? 1 then cd_covhash (out0 t) else cd_covhash (out1 t))).
+Proof. exact good_def. Qed.
+Print Assumptions C20_invariant_def.
+
+(* a history: batches (a rejected batch leaves the state alone) and block boundaries (seal, then next_unsealed) *)
+Theorem C20_history_step_def : forall SO s o,
+  hstep SO s o =
+  match o with
+  | HBatch lh txs => match apply_tx_batch SO s lh txs with Ok s' => s' | _ => s end
+  | HBlock a hdr => match seal SO s a with Ok s' => next_unsealed s' hdr | _ => s end
+  end.
+Proof. exact hstep_def. Qed.
+Print Assumptions C20_history_step_def.
+
+(* the hash-oracle assumptions of a history, each about the state its step is applied to: the batch assumptions
+   [HashOK]; a faucet marker is not the hash of a transaction filed earlier in the block; and the
+   proposer-reward coin id is new *)
+Theorem C20_history_assumptions_def : forall SO s ops,
+  hist_ok SO s ops <->
+  match ops with
+  | [] => True
+  | o :: r =>
+    match o with
+    | HBatch lh txs => HashOK SO s txs /\
+        forall t t', In t txs -> In t' (sorted_txs s) -> so_faucet_marker SO (t_hash t) <> t_hash t'
+    | HBlock a hdr => a <> None ->
+        s_coins s !! coin_key (so_reward_id SO (s_height s)) 0 = None /\
+        forall t, In t (sorted_txs s) -> so_reward_id SO (s_height s) <> t_hash t
+    end /\ hist_ok SO (hstep SO s o) r
+  end.
+Proof. exact hist_ok_def. Qed.
+Print Assumptions C20_history_assumptions_def.
+
+(* the genesis state (one coin, inserted under the rule of its network) satisfies the invariant *)
+Theorem C20_genesis : forall net c fee_pool mult stakes, Good (genesis net c fee_pool mult stakes).
+Proof. exact genesis_good. Qed.
+Print Assumptions C20_genesis.
+
+(* one accepted batch, one seal, one block boundary *)
+Theorem C20_batch_keeps_invariant : forall SO s lh txs s',
+  apply_tx_batch SO s lh txs = Ok s' -> HashOK SO s txs ->
+  (forall t t', In t txs -> In t' (sorted_txs s) -> so_faucet_marker SO (t_hash t) <> t_hash t') ->
+  Good s -> Good s'.
+Proof. exact batch_good. Qed.
+Print Assumptions C20_batch_keeps_invariant.
+
+Theorem C20_seal : forall SO s a s',
+  Good s -> seal SO s a = Ok s' ->
+  (a <> None -> s_coins s !! coin_key (so_reward_id SO (s_height s)) 0 = None /\
+                forall t, In t (sorted_txs s) -> so_reward_id SO (s_height s) <> t_hash t) ->
+  (if tip_906 s' then CountsOk (s_coins s', s_counts s') else s_counts s' = ∅) /\
+  (forall h t, s_txs s' !! h = Some t -> t_hash t = h).
+Proof. exact seal_counts. Qed.
+Print Assumptions C20_seal.
+
+Theorem C20_next_block : forall s hdr,
+  (if tip_906 s then CountsOk (s_coins s, s_counts s) else s_counts s = ∅) -> Good (next_unsealed s hdr).
+Proof. exact next_unsealed_good. Qed.
+Print Assumptions C20_next_block.
+
+(* C20: in every state of every history from a Good state, the count of every covenant hash is the number of
+   unspent coins it locks, and a hash that locks none has no entry *)
+Theorem C20_every_reachable_state : forall SO ops s h,
+  Good s -> hist_ok SO s ops -> tip_906 (fold_left (hstep SO) ops s) = true ->
+  coin_count (s_counts (fold_left (hstep SO) ops s)) h = count_of h (s_coins (fold_left (hstep SO) ops s)) /\
+  (count_of h (s_coins (fold_left (hstep SO) ops s)) = 0 -> s_counts (fold_left (hstep SO) ops s) !! h = None).
+Proof. exact history_counts. Qed.
+Print Assumptions C20_every_reachable_state.
+
+(* ... and in the sealed state of every block of every history *)
+Theorem C20_every_sealed_state : forall SO ops s a sealed h,
+  Good s -> hist_ok SO s ops -> seal SO (fold_left (hstep SO) ops s) a = Ok sealed ->
+  (a <> None -> reward_fresh SO (fold_left (hstep SO) ops s)) -> tip_906 sealed = true ->
+  coin_count (s_counts sealed) h = count_of h (s_coins sealed).
+Proof. exact history_sealed_counts. Qed.
+Print Assumptions C20_every_sealed_state.
+
+(* before the activation height no count exists *)
+Theorem C20_no_counts_before_activation : forall SO ops s,
+  Good s -> hist_ok SO s ops -> tip_906 (fold_left (hstep SO) ops s) = false -> s_counts (fold_left (hstep SO) ops s) = ∅.
+Proof. exact history_no_counts_before_activation. Qed.
+Print Assumptions C20_no_counts_before_activation.
+
+(* non-vacuity: a concrete history (three transactions, then a block sealed with a proposer action) from a Good
+   state meets every step assumption and really runs *)
+Example C20_history_witness :
+  Good w_state /\ hist_ok w_oracle w_state w_hist /\
+  s_height (fold_left (hstep w_oracle) w_hist w_state) = 6 /\ tip_906 (fold_left (hstep w_oracle) w_hist w_state) = true.
+Proof. split; [exact w_state_good|]. split; [exact w_hist_ok|exact w_hist_runs]. Qed.
